@@ -15,6 +15,7 @@ type Exec struct {
 	Outcome    string   // canonical observation (replies + final state), schedule-independent text
 	Violations []Viol   // oracle failures local to this execution
 	Notes      []string // free text for samples
+	NoSerial   bool     // the outcome is not compared with the sequential orders (see conc: timers)
 }
 
 type Viol struct{ Sig, What string }
@@ -117,7 +118,7 @@ func (e *explorer) record(choices []int, ex Exec) {
 	for _, v := range ex.Violations {
 		add(v.Sig, v.What)
 	}
-	if e.res.Serial != nil && len(ex.Violations) == 0 {
+	if e.res.Serial != nil && len(ex.Violations) == 0 && !ex.NoSerial {
 		if _, ok := e.res.Serial[ex.Outcome]; !ok {
 			var ser []string
 			for k := range e.res.Serial {
